@@ -5,7 +5,7 @@ import functools
 
 import numpy as np
 
-from .. import gen, reach
+from .. import gen, reach, repo
 from ..oracle import embed, refq
 
 ID = "C13"
@@ -189,6 +189,9 @@ def run_case(spec, ctx, R):
     if solver.startswith("rsp") and spec["idx"] % 3 == 0:
         cfg["test_sketch_size"] = cfg["block_size"]          # the stopping sketch has the shape of an iteration sketch
     seed_via = cfg.pop("seed_via", "global")
+    if spec["idx"] % 5 == 2:
+        cfg["verbose"] = True              # call form: prints only; the run is judged by the same clauses
+        ctx.hit("callform:verbose_true")
     A0 = refq.fa(A).copy()
     nrmA = refq.fro(A)
     smin = float(s[-1])
@@ -214,7 +217,8 @@ def run_case(spec, ctx, R):
                 obj._generate_random_sketch = rec          # boundary capture of the test sketch (first draw)
                 f = {"rsp_column_qr": obj.compute_column_variant, "rsp_column_spd": obj.compute_column_variant,
                      "rsp_row": obj.compute_row_variant, "rsp_compute": obj.compute}[solver]
-                X, info = f(A)
+                with repo.quiet():
+                    X, info = f(A)
                 row = (solver == "rsp_row") or (solver == "rsp_compute" and m < n)
                 ssk = cfg["test_sketch_size"]
             elif solver == "hybrid":
@@ -231,7 +235,8 @@ def run_case(spec, ctx, R):
                     return out
                 np.random.randn = rec_randn
                 try:
-                    X, info = hyb.compute(A)
+                    with repo.quiet():
+                        X, info = hyb.compute(A)
                 finally:
                     np.random.randn = orig_randn
                 row, ssk = False, min(6, n)
@@ -239,7 +244,8 @@ def run_case(spec, ctx, R):
                     captured.append(refq.qa(np.stack(draws, axis=-1)))
                     ctx.hit("hybrid:test_sketch_captured")
             else:
-                X, info = S.CGNEQSolver(**cfg).compute(A)
+                with repo.quiet():
+                    X, info = S.CGNEQSolver(**cfg).compute(A)
                 row, ssk = False, None
         except Exception as e:
             ctx.check("unexpected_exception", False, site=site, detail={"exception": repr(e), "shape": [m, n], "config": cfg, "np_seed": sd})
